@@ -9,6 +9,7 @@ import ast
 import dataclasses
 import hashlib
 import os
+import re
 from typing import Dict, Iterator, List, Optional, Tuple
 
 REPO = os.environ.get("BASANA_REPO", "/repo")
@@ -122,6 +123,11 @@ class Repo:
             parsed.append((rel, modname, is_pkg, src, tree))
         if self.known_functions is not None:
             from . import inline
+            kg = inline.load_known_globals()
+            if kg:
+                trees = [t for _, _, _, _, t in parsed]
+                for rel, modname, is_pkg, src, tree in parsed:
+                    self.inline_log.extend(inline.propagate_new_constants(tree, modname, kg, trees))
             foreign = {m: inline.new_top_level_functions(t, m, self.known_functions) for _, m, _, _, t in parsed}
             foreign = {m: d for m, d in foreign.items() if d}
             all_modules = {m for _, m, _, _, _ in parsed}
@@ -131,7 +137,8 @@ class Repo:
                 self.inline_log.extend(log)
                 self.inline_failed.extend(failed)
             for rel, modname, is_pkg, src, tree in parsed:
-                _drop_fully_inlined(tree, modname, self.known_functions, self.inline_log, [t for _, _, _, _, t in parsed])
+                used = {m.group(1) for l in self.inline_log for m in [re.search(r" <- (\S+?)[ :(]", l + " ")] if m}
+                _drop_fully_inlined(tree, modname, self.known_functions, self.inline_log, [t for _, _, _, _, t in parsed], used)
         for rel, modname, is_pkg, src, tree in parsed:
             _set_parents(tree)
             mod = Module(rel, modname, src, tree)
@@ -214,8 +221,10 @@ class Repo:
         raise AnchorMissing("node without module")
 
 
-def _drop_fully_inlined(tree: ast.Module, modname: str, known, log: List[str], all_trees=None) -> None:
-    """Remove the definition of a new helper once no reference to it is left in the package (every call site was expanded)."""
+def _drop_fully_inlined(tree: ast.Module, modname: str, known, log: List[str], all_trees=None, used=None) -> None:
+    """Remove the definition of a new helper once no reference to it is left in the package (every call site was expanded).  Only
+    helpers that were actually inlined somewhere are candidates: an unreferenced new method (``__len__``, an override) stays."""
+    used = used or set()
     import itertools
 
     def refs(name: str, is_method: bool) -> int:
@@ -231,7 +240,7 @@ def _drop_fully_inlined(tree: ast.Module, modname: str, known, log: List[str], a
                 n += 1
         return n
     for s in list(tree.body):
-        if isinstance(s, (ast.FunctionDef, ast.AsyncFunctionDef)) and f"{modname}.{s.name}" not in known and refs(s.name, False) == 0:
+        if isinstance(s, (ast.FunctionDef, ast.AsyncFunctionDef)) and f"{modname}.{s.name}" not in known and f"{modname}.{s.name}" in used and refs(s.name, False) == 0:
             tree.body.remove(s)
             log.append(f"dropped fully inlined helper {modname}.{s.name}")
         elif isinstance(s, ast.ClassDef):
@@ -239,7 +248,7 @@ def _drop_fully_inlined(tree: ast.Module, modname: str, known, log: List[str], a
             if cq not in {k.rsplit(".", 1)[0] for k in known}:
                 continue
             for m in list(s.body):
-                if isinstance(m, (ast.FunctionDef, ast.AsyncFunctionDef)) and f"{cq}.{m.name}" not in known and refs(m.name, True) == 0:
+                if isinstance(m, (ast.FunctionDef, ast.AsyncFunctionDef)) and f"{cq}.{m.name}" not in known and f"{cq}.{m.name}" in used and refs(m.name, True) == 0:
                     s.body.remove(m)
                     log.append(f"dropped fully inlined helper {cq}.{m.name}")
 
